@@ -61,7 +61,7 @@ func runC16(c *eng.Ctx) {
 		differs := eng.CmpEdges(fn, notConst, eng.LoadNamed("Offset", nil), eng.NE)
 		n := 0
 		for _, r := range eng.Returns(fn) {
-			if len(r.Results) == 3 && eng.Global(cl+"ErrIncorrectOffset")(r.Results[2]) {
+			if len(eng.RetVals(r)) == 3 && eng.Global(cl+"ErrIncorrectOffset")(eng.RetVals(r)[2]) {
 				n++
 				for name, es := range map[string][]eng.Edge{"concurrency control on": cc, "expected offset given (m.Offset != -1)": hasExp, "offset != m.Offset": differs} {
 					g, w := eng.GuardedBy(fn, r, es)
@@ -326,7 +326,7 @@ func runC16(c *eng.Ctx) {
 		}, eng.EQ)
 		ok := false
 		for _, r := range eng.Returns(fn) {
-			if len(r.Results) == 1 && !eng.NilConst(r.Results[0]) {
+			if len(eng.RetVals(r)) == 1 && !eng.NilConst(eng.RetVals(r)[0]) {
 				g1, _ := eng.GuardedBy(fn, r, on)
 				g2, _ := eng.GuardedBy(fn, r, none)
 				if g1 && g2 && len(on) > 0 && len(none) > 0 {
